@@ -1713,3 +1713,279 @@ Lemma fixed_rejects :
   parse fp_any [0x2b; 0x31] = Err E_TOK /\
   parse fp_any [0x22; 0x5c; 0x75; 0x2b; 0x31; 0x32; 0x33; 0x22] = Err E_ESC.
 Proof. repeat split; vm_compute; reflexivity. Qed.
+
+(* ------------------------------------------------------------------------------------------------ *)
+(* unpaired surrogate escapes: the full RFC 8259 syntax vs the sub-language the parser accepts *)
+
+Notation scan := no_lone_surrogate_escape.
+Ltac norm_app_in H := repeat (progress (rewrite <- ?app_assoc in H; cbn [app] in H)).
+
+Definition no_bs (a : str) : Prop := Forall (fun c => c <> 0x5c) a.
+
+Lemma scan_plain (c : N) (r : str) : c <> 0x5c -> scan (c :: r) = scan r.
+Proof. intro H. cbn [no_lone_surrogate_escape]. rewrite (eqb_false_of_neq _ _ H). reflexivity. Qed.
+
+Lemma scan_no_bs (a b : str) : no_bs a -> scan (a ++ b) = scan b.
+Proof.
+  intro H. induction H as [|c a Hc Ha IH]; [reflexivity|]. cbn [app]. rewrite scan_plain by exact Hc. exact IH.
+Qed.
+
+Lemma scan_escape (c : N) (r : str) : c <> 0x75 -> scan (0x5c :: c :: r) = scan r.
+Proof. intro H. cbn [no_lone_surrogate_escape]. change (0x5c =? 0x5c) with true. cbn iota. rewrite (eqb_false_of_neq _ _ H). reflexivity. Qed.
+
+Lemma scan_u (h1 h2 h3 h4 : N) (r4 : str) :
+  scan (0x5c :: 0x75 :: h1 :: h2 :: h3 :: h4 :: r4) =
+  match hex4 h1 h2 h3 h4 with
+  | Some code =>
+    if is_surrogate code then
+      if code <? 0xDC00 then
+        match r4 with
+        | b :: u :: g1 :: g2 :: g3 :: g4 :: r10 =>
+          if (b =? 0x5c) && (u =? 0x75) then
+            match hex4 g1 g2 g3 g4 with
+            | Some lo => if (0xDC00 <=? lo) && (lo <=? 0xDFFF) then scan r10 else false
+            | None => false
+            end
+          else false
+        | _ => false
+        end
+      else false
+    else scan r4
+  | None => scan r4
+  end.
+Proof. reflexivity. Qed.
+
+Lemma WS_no_bs (w : str) : WS w -> no_bs w.
+Proof. intro H. eapply Forall_impl; [|exact H]. intros c Hc. unfold ws_char in Hc. lia. Qed.
+
+Lemma hex4_is_fun (h1 h2 h3 h4 a b : N) : hex4_is h1 h2 h3 h4 a -> hex4_is h1 h2 h3 h4 b -> a = b.
+Proof. intros Ha Hb. apply hex4_spec in Ha, Hb. congruence. Qed.
+
+(* paired escapes only => the scan passes the string body *)
+Lemma scan_chars_false (b o : str) : JChars false b o -> forall rest, scan (b ++ 0x22 :: rest) = scan rest.
+Proof.
+  induction 1 as [|c t o Hc _ IH|c d t o He _ IH|h1 h2 h3 h4 code t o Hh Hns _ IH
+                  |h1 h2 h3 h4 g1 g2 g3 g4 hi lo t o Hh Hg Hhi Hlo _ IH|h1 h2 h3 h4 code t o Hl _ _ _ _]; intro rest.
+  - cbn [app]. apply scan_plain. discriminate.
+  - cbn [app]. rewrite scan_plain; [apply IH|]. unfold unescaped in Hc. lia.
+  - cbn [app]. rewrite scan_escape; [apply IH|]. eapply escape_of_not_u. exact He.
+  - cbn [app]. rewrite scan_u. apply hex4_spec in Hh. rewrite Hh.
+    apply is_surrogate_false in Hns. rewrite Hns. apply IH.
+  - cbn [app]. rewrite scan_u. apply hex4_spec in Hh, Hg. rewrite Hh.
+    assert (is_surrogate hi = true) as -> by (apply is_surrogate_true; unfold surrogate, high_surrogate in *; lia).
+    unfold high_surrogate, low_surrogate in *.
+    assert ((hi <? 0xDC00) = true) as -> by nbool.
+    change ((0x5c =? 0x5c) && (0x75 =? 0x75)) with true. cbn iota. rewrite Hg.
+    assert ((0xDC00 <=? lo) && (lo <=? 0xDFFF) = true) as -> by nbool. apply IH.
+  - discriminate Hl.
+Qed.
+
+(* RFC string body with possibly unpaired escapes, on which the scan passes => a body with paired escapes only *)
+Lemma scan_chars_true_n (n : nat) :
+  forall b o, (length b <= n)%nat -> JChars true b o -> forall rest, scan (b ++ 0x22 :: rest) = true ->
+  (exists o', JChars false b o') /\ scan rest = true.
+Proof.
+  induction n as [|n IH]; intros b o Hlen H rest Hs.
+  - destruct b; [|cbn in Hlen; lia]. cbn [app] in Hs. rewrite scan_plain in Hs by discriminate.
+    split; [exists []; constructor|exact Hs].
+  - destruct H as [|c t o Hc Ht|c d t o He Ht|h1 h2 h3 h4 code t o Hh Hns Ht
+                   |h1 h2 h3 h4 g1 g2 g3 g4 hi lo t o Hh Hg Hhi Hlo Ht|h1 h2 h3 h4 code t o _ Hh Hsur Ht].
+    + cbn [app] in Hs. rewrite scan_plain in Hs by discriminate. split; [exists []; constructor|exact Hs].
+    + cbn [app] in Hs. rewrite scan_plain in Hs by (unfold unescaped in Hc; lia).
+      cbn [length] in Hlen. destruct (IH t o ltac:(lia) Ht rest Hs) as [(o' & Ho') Hr].
+      split; [exists (c :: o'); apply jc_unescaped; assumption|exact Hr].
+    + cbn [app] in Hs. rewrite scan_escape in Hs by (eapply escape_of_not_u; exact He).
+      cbn [length] in Hlen. destruct (IH t o ltac:(lia) Ht rest Hs) as [(o' & Ho') Hr].
+      split; [exists (d :: o'); eapply jc_escape; eassumption|exact Hr].
+    + cbn [app] in Hs. rewrite scan_u in Hs. pose proof Hh as Hh'. apply hex4_spec in Hh'. rewrite Hh' in Hs.
+      pose proof Hns as Hns'. apply is_surrogate_false in Hns'. rewrite Hns' in Hs.
+      cbn [length] in Hlen. destruct (IH t o ltac:(lia) Ht rest Hs) as [(o' & Ho') Hr].
+      split; [exists (code :: o'); apply jc_u; assumption|exact Hr].
+    + cbn [app] in Hs. rewrite scan_u in Hs. pose proof Hh as Hh'. pose proof Hg as Hg'. apply hex4_spec in Hh', Hg'. rewrite Hh' in Hs.
+      assert (Es : is_surrogate hi = true) by (apply is_surrogate_true; unfold surrogate, high_surrogate in *; lia).
+      rewrite Es in Hs. unfold high_surrogate, low_surrogate in *.
+      assert (El : (hi <? 0xDC00) = true) by nbool. rewrite El in Hs.
+      change ((0x5c =? 0x5c) && (0x75 =? 0x75)) with true in Hs. cbn iota in Hs. rewrite Hg' in Hs.
+      assert (Er : (0xDC00 <=? lo) && (lo <=? 0xDFFF) = true) by nbool. rewrite Er in Hs.
+      cbn [length] in Hlen. destruct (IH t o ltac:(lia) Ht rest Hs) as [(o' & Ho') Hr].
+      split; [eexists; apply jc_pair; eassumption|exact Hr].
+    + (* an escape that is a surrogate, derived as "lone": the scan insists on a following low-surrogate escape *)
+      cbn [app] in Hs. rewrite scan_u in Hs. pose proof Hh as Hh'. apply hex4_spec in Hh'. rewrite Hh' in Hs.
+      pose proof Hsur as Es. apply is_surrogate_true in Es. rewrite Es in Hs.
+      destruct (code <? 0xDC00) eqn:El; [|discriminate Hs].
+      cbn [length] in Hlen.
+      (* the text after the escape is t ++ quote :: rest; it must begin with backslash u g1 g2 g3 g4 *)
+      destruct Ht as [|c t' o' Hc Ht'|c d t' o' He Ht'|g1 g2 g3 g4 lo t' o' Hg Hns Ht'
+                      |g1 g2 g3 g4 k1 k2 k3 k4 hi2 lo2 t' o' Hg Hk Hhi2 Hlo2 Ht'|g1 g2 g3 g4 lo t' o' _ Hg Hsur2 Ht'];
+        cbn [app] in Hs.
+      * destruct rest as [|? [|? [|? [|? [|? ?]]]]]; discriminate Hs.
+      * destruct (t' ++ 0x22 :: rest) as [|? [|? [|? [|? [|? ?]]]]]; try discriminate Hs.
+        destruct (c =? 0x5c) eqn:Ec; [|discriminate Hs]. apply N.eqb_eq in Ec. unfold unescaped in Hc. lia.
+      * destruct (t' ++ 0x22 :: rest) as [|? [|? [|? [|? ?]]]]; try discriminate Hs.
+        change (0x5c =? 0x5c) with true in Hs. cbn [andb] in Hs.
+        destruct (c =? 0x75) eqn:Ec; [|discriminate Hs]. apply N.eqb_eq in Ec. exfalso. eapply escape_of_not_u; eassumption.
+      * change ((0x5c =? 0x5c) && (0x75 =? 0x75)) with true in Hs. cbn iota in Hs.
+        pose proof Hg as Hg'. apply hex4_spec in Hg'. rewrite Hg' in Hs.
+        destruct ((0xDC00 <=? lo) && (lo <=? 0xDFFF)) eqn:Er; [|discriminate Hs]. b2p.
+        exfalso. apply Hns. unfold surrogate. lia.
+      * change ((0x5c =? 0x5c) && (0x75 =? 0x75)) with true in Hs. cbn iota in Hs.
+        pose proof Hg as Hg'. apply hex4_spec in Hg'. rewrite Hg' in Hs.
+        destruct ((0xDC00 <=? hi2) && (hi2 <=? 0xDFFF)) eqn:Er; [|discriminate Hs]. b2p.
+        unfold high_surrogate in Hhi2. lia.
+      * change ((0x5c =? 0x5c) && (0x75 =? 0x75)) with true in Hs. cbn iota in Hs.
+        pose proof Hg as Hg'. apply hex4_spec in Hg'. rewrite Hg' in Hs.
+        destruct ((0xDC00 <=? lo) && (lo <=? 0xDFFF)) eqn:Er; [|discriminate Hs]. b2p.
+        cbn [length] in Hlen. destruct (IH t' o' ltac:(lia) Ht' rest Hs) as [(o'' & Ho'') Hr].
+        split; [|exact Hr]. eexists. apply jc_pair; try eassumption.
+        -- unfold high_surrogate, surrogate in *. lia.
+        -- unfold low_surrogate. lia.
+Qed.
+
+Lemma scan_chars_true (b o : str) :
+  JChars true b o -> forall rest, scan (b ++ 0x22 :: rest) = true -> (exists o', JChars false b o') /\ scan rest = true.
+Proof. intros H rest. apply (scan_chars_true_n (length b) b o); [lia|exact H]. Qed.
+
+Lemma numchars_no_bs (s : str) : Forall numchar s -> no_bs s.
+Proof. intro H. eapply Forall_impl; [|exact H]. intros c Hc. unfold numchar, digit in Hc. lia. Qed.
+
+Section ScanGrammar.
+  Variable F : Type.
+  Variable fparse : str -> option F.
+
+  Notation dl := (depth_list F).
+  Notation dm := (depth_members F).
+
+  (* full RFC syntax + scan passes => the same text is in the paired-escapes sub-language, same nesting depth *)
+  Lemma scan_true_all :
+    (forall t v, JValue F fparse true t v -> forall rest, scan (t ++ rest) = true ->
+       (exists v', JValue F fparse false t v' /\ depth v' = depth v) /\ scan rest = true) /\
+    (forall b vs, JElems F fparse true b vs -> forall rest, scan (b ++ rest) = true ->
+       (exists vs', JElems F fparse false b vs' /\ dl vs' = dl vs) /\ scan rest = true) /\
+    (forall b ms, JMembers F fparse true b ms -> forall rest, scan (b ++ rest) = true ->
+       (exists ms', JMembers F fparse false b ms' /\ dm ms' = dm ms) /\ scan rest = true).
+  Proof.
+    apply JValue_mutind.
+    - intros rest Hs. rewrite scan_no_bs in Hs by (repeat constructor; discriminate).
+      split; [exists VNull; split; [constructor|reflexivity]|exact Hs].
+    - intros rest Hs. rewrite scan_no_bs in Hs by (repeat constructor; discriminate).
+      split; [exists (VBool true); split; [constructor|reflexivity]|exact Hs].
+    - intros rest Hs. rewrite scan_no_bs in Hs by (repeat constructor; discriminate).
+      split; [exists (VBool false); split; [constructor|reflexivity]|exact Hs].
+    - intros s x Hn Hf rest Hs. rewrite scan_no_bs in Hs by (apply numchars_no_bs, JNumber_numchars; exact Hn).
+      split; [exists (VNum x); split; [constructor; assumption|reflexivity]|exact Hs].
+    - intros b o Hb rest Hs. cbn [app] in Hs. rewrite scan_plain in Hs by discriminate.
+      rewrite <- app_assoc in Hs. cbn [app] in Hs.
+      destruct (scan_chars_true b o Hb rest Hs) as [(o' & Ho') Hr].
+      split; [exists (VStr o'); split; [constructor; exact Ho'|reflexivity]|exact Hr].
+    - intros w Hw rest Hs. cbn [app] in Hs. rewrite scan_plain in Hs by discriminate.
+      rewrite <- app_assoc in Hs. rewrite scan_no_bs in Hs by (apply WS_no_bs; exact Hw).
+      cbn [app] in Hs. rewrite scan_plain in Hs by discriminate.
+      split; [exists (VArr []); split; [constructor; exact Hw|reflexivity]|exact Hs].
+    - intros b vs Hb IH rest Hs. cbn [app] in Hs. rewrite scan_plain in Hs by discriminate.
+      rewrite <- app_assoc in Hs. destruct (IH _ Hs) as [(vs' & Hvs' & Hd) Hr].
+      cbn [app] in Hr. rewrite scan_plain in Hr by discriminate.
+      split; [exists (VArr vs'); split; [constructor; exact Hvs'|rewrite !depth_arr, Hd; reflexivity]|exact Hr].
+    - intros w Hw rest Hs. cbn [app] in Hs. rewrite scan_plain in Hs by discriminate.
+      rewrite <- app_assoc in Hs. rewrite scan_no_bs in Hs by (apply WS_no_bs; exact Hw).
+      cbn [app] in Hs. rewrite scan_plain in Hs by discriminate.
+      split; [exists (VObj []); split; [constructor; exact Hw|reflexivity]|exact Hs].
+    - intros b ms Hb IH rest Hs. cbn [app] in Hs. rewrite scan_plain in Hs by discriminate.
+      rewrite <- app_assoc in Hs. destruct (IH _ Hs) as [(ms' & Hms' & Hd) Hr].
+      cbn [app] in Hr. rewrite scan_plain in Hr by discriminate.
+      split; [exists (VObj ms'); split; [constructor; exact Hms'|rewrite !depth_obj, Hd; reflexivity]|exact Hr].
+    - intros w1 t v w2 Hw1 Hv IHv Hw2 rest Hs. norm_app_in Hs.
+      rewrite scan_no_bs in Hs by (apply WS_no_bs; exact Hw1).
+      destruct (IHv _ Hs) as [(v' & Hv' & Hd) Hr]. rewrite scan_no_bs in Hr by (apply WS_no_bs; exact Hw2).
+      split; [exists [v']; split; [constructor; assumption|rewrite !depth_list_cons, Hd; reflexivity]|exact Hr].
+    - intros w1 t v w2 b vs Hw1 Hv IHv Hw2 Hb IHb rest Hs. norm_app_in Hs.
+      rewrite scan_no_bs in Hs by (apply WS_no_bs; exact Hw1).
+      destruct (IHv _ Hs) as [(v' & Hv' & Hd) Hr]. rewrite scan_no_bs in Hr by (apply WS_no_bs; exact Hw2).
+      rewrite scan_plain in Hr by discriminate. destruct (IHb _ Hr) as [(vs' & Hvs' & Hds) Hr2].
+      split; [exists (v' :: vs'); split; [constructor; assumption|rewrite !depth_list_cons, Hd, Hds; reflexivity]|exact Hr2].
+    - intros w1 kb k w2 w3 t v w4 Hw1 Hk Hw2 Hw3 Hv IHv Hw4 rest Hs. norm_app_in Hs.
+      rewrite scan_no_bs in Hs by (apply WS_no_bs; exact Hw1). rewrite scan_plain in Hs by discriminate.
+      destruct (scan_chars_true kb k Hk _ Hs) as [(k' & Hk') Hr].
+      rewrite scan_no_bs in Hr by (apply WS_no_bs; exact Hw2). rewrite scan_plain in Hr by discriminate.
+      rewrite scan_no_bs in Hr by (apply WS_no_bs; exact Hw3).
+      destruct (IHv _ Hr) as [(v' & Hv' & Hd) Hr2]. rewrite scan_no_bs in Hr2 by (apply WS_no_bs; exact Hw4).
+      split; [exists [(k', v')]; split; [constructor; assumption|rewrite !depth_members_cons, Hd; reflexivity]|exact Hr2].
+    - intros w1 kb k w2 w3 t v w4 b ms Hw1 Hk Hw2 Hw3 Hv IHv Hw4 Hb IHb rest Hs. norm_app_in Hs.
+      rewrite scan_no_bs in Hs by (apply WS_no_bs; exact Hw1). rewrite scan_plain in Hs by discriminate.
+      destruct (scan_chars_true kb k Hk _ Hs) as [(k' & Hk') Hr].
+      rewrite scan_no_bs in Hr by (apply WS_no_bs; exact Hw2). rewrite scan_plain in Hr by discriminate.
+      rewrite scan_no_bs in Hr by (apply WS_no_bs; exact Hw3).
+      destruct (IHv _ Hr) as [(v' & Hv' & Hd) Hr2]. rewrite scan_no_bs in Hr2 by (apply WS_no_bs; exact Hw4).
+      rewrite scan_plain in Hr2 by discriminate. destruct (IHb _ Hr2) as [(ms' & Hms' & Hds) Hr3].
+      split; [exists ((k', v') :: ms'); split; [constructor; assumption|rewrite !depth_members_cons, Hd, Hds; reflexivity]|exact Hr3].
+  Qed.
+
+  (* paired escapes only => the scan passes *)
+  Lemma scan_false_all :
+    (forall t v, JValue F fparse false t v -> forall rest, scan (t ++ rest) = scan rest) /\
+    (forall b vs, JElems F fparse false b vs -> forall rest, scan (b ++ rest) = scan rest) /\
+    (forall b ms, JMembers F fparse false b ms -> forall rest, scan (b ++ rest) = scan rest).
+  Proof.
+    apply JValue_mutind.
+    - intro rest. apply scan_no_bs. repeat constructor; discriminate.
+    - intro rest. apply scan_no_bs. repeat constructor; discriminate.
+    - intro rest. apply scan_no_bs. repeat constructor; discriminate.
+    - intros s x Hn Hf rest. apply scan_no_bs. apply numchars_no_bs, JNumber_numchars. exact Hn.
+    - intros b o Hb rest. cbn [app]. rewrite scan_plain by discriminate. rewrite <- app_assoc. cbn [app].
+      apply scan_chars_false with (o := o). exact Hb.
+    - intros w Hw rest. cbn [app]. rewrite scan_plain by discriminate. rewrite <- app_assoc.
+      rewrite scan_no_bs by (apply WS_no_bs; exact Hw). cbn [app]. apply scan_plain. discriminate.
+    - intros b vs Hb IH rest. cbn [app]. rewrite scan_plain by discriminate. rewrite <- app_assoc, IH.
+      cbn [app]. apply scan_plain. discriminate.
+    - intros w Hw rest. cbn [app]. rewrite scan_plain by discriminate. rewrite <- app_assoc.
+      rewrite scan_no_bs by (apply WS_no_bs; exact Hw). cbn [app]. apply scan_plain. discriminate.
+    - intros b ms Hb IH rest. cbn [app]. rewrite scan_plain by discriminate. rewrite <- app_assoc, IH.
+      cbn [app]. apply scan_plain. discriminate.
+    - intros w1 t v w2 Hw1 Hv IHv Hw2 rest. norm_app.
+      rewrite scan_no_bs by (apply WS_no_bs; exact Hw1). rewrite IHv. apply scan_no_bs, WS_no_bs. exact Hw2.
+    - intros w1 t v w2 b vs Hw1 Hv IHv Hw2 Hb IHb rest. norm_app.
+      rewrite scan_no_bs by (apply WS_no_bs; exact Hw1). rewrite IHv.
+      rewrite scan_no_bs by (apply WS_no_bs; exact Hw2). rewrite scan_plain by discriminate. apply IHb.
+    - intros w1 kb k w2 w3 t v w4 Hw1 Hk Hw2 Hw3 Hv IHv Hw4 rest. norm_app.
+      rewrite scan_no_bs by (apply WS_no_bs; exact Hw1). rewrite scan_plain by discriminate.
+      rewrite (scan_chars_false kb k Hk).
+      rewrite scan_no_bs by (apply WS_no_bs; exact Hw2). rewrite scan_plain by discriminate.
+      rewrite scan_no_bs by (apply WS_no_bs; exact Hw3). rewrite IHv. apply scan_no_bs, WS_no_bs. exact Hw4.
+    - intros w1 kb k w2 w3 t v w4 b ms Hw1 Hk Hw2 Hw3 Hv IHv Hw4 Hb IHb rest. norm_app.
+      rewrite scan_no_bs by (apply WS_no_bs; exact Hw1). rewrite scan_plain by discriminate.
+      rewrite (scan_chars_false kb k Hk).
+      rewrite scan_no_bs by (apply WS_no_bs; exact Hw2). rewrite scan_plain by discriminate.
+      rewrite scan_no_bs by (apply WS_no_bs; exact Hw3). rewrite IHv.
+      rewrite scan_no_bs by (apply WS_no_bs; exact Hw4). rewrite scan_plain by discriminate. apply IHb.
+  Qed.
+
+  Theorem JText_no_lone (s : str) (v : value F) : JText fparse s v -> no_lone_surrogate_escape s = true.
+  Proof.
+    intros (w1 & t & w2 & -> & H1 & Hv & H2).
+    rewrite scan_no_bs by (apply WS_no_bs; exact H1). rewrite (proj1 scan_false_all t v Hv).
+    rewrite <- (app_nil_r w2). apply scan_no_bs, WS_no_bs. exact H2.
+  Qed.
+
+  Theorem JSyntax_no_lone_JText (s : str) (v : value F) :
+    JTextG F fparse true s v -> no_lone_surrogate_escape s = true ->
+    exists v', JText fparse s v' /\ depth v' = depth v.
+  Proof.
+    intros (w1 & t & w2 & -> & H1 & Hv & H2) Hs.
+    rewrite scan_no_bs in Hs by (apply WS_no_bs; exact H1).
+    destruct (proj1 scan_true_all t v Hv _ Hs) as [(v' & Hv' & Hd) _].
+    exists v'. split; [|exact Hd]. exists w1, t, w2. auto.
+  Qed.
+
+  (* the property's "if and only if", against the full RFC 8259 syntax *)
+  Theorem parse_accepts_iff_rfc (s : str) :
+    (exists v, parse fparse s = Ok v) <->
+    ((exists v, JTextG F fparse true s v /\ depth v <= MAX_DEPTH) /\ no_lone_surrogate_escape s = true).
+  Proof.
+    split.
+    - intros (v & H). apply parse_sound in H. destruct H as [Ht Hd]. split.
+      + exists v. split; [|exact Hd]. destruct Ht as (w1 & t & w2 & -> & H1 & Hv & H2).
+        exists w1, t, w2. split; [reflexivity|]. split; [exact H1|]. split; [apply JValue_mono_all; exact Hv|exact H2].
+      + eapply JText_no_lone. exact Ht.
+    - intros [(v & Ht & Hd) Hs]. destruct (JSyntax_no_lone_JText s v Ht Hs) as (v' & Ht' & Hd').
+      exists v'. apply parse_complete; [exact Ht'|rewrite Hd'; exact Hd].
+  Qed.
+End ScanGrammar.
